@@ -44,12 +44,17 @@ def apply_contract(fn_text, c, log=None):
         if log is not None: log.append(f'{desc} (x{n})')
     for (anchor, where, text) in c.inserts:
         lines = body.split('\n')
-        hits = [i for i, ln in enumerate(lines) if anchor in ln]
+        if anchor.startswith('re:'):
+            hits = [i for i, ln in enumerate(lines) if re.search(anchor[3:], ln)]
+        else:
+            hits = [i for i, ln in enumerate(lines) if anchor in ln]
         if len(hits) != 1:
             raise AnchorLost(f'insert anchor {anchor!r}: {len(hits)} hits')
         i = hits[0]
         if where == 'before': lines[i:i] = [text]
         elif where == 'after': lines[i+1:i+1] = [text]
+        elif where.startswith('after+'):
+            k = int(where[6:]); lines[i+1+k:i+1+k] = [text]
         elif where == 'loop':   # put invariant text between the loop header and its '{'
             ln = lines[i]
             k = ln.rstrip().rfind('{')
